@@ -96,7 +96,7 @@ fn json_to_val(v: &serde_json::Value, ty: FT) -> Val {
 #[derive(Clone, Debug)]
 struct FDef { name: String, ty: FT, nullable: bool, default: Option<Val>, phase2: bool, short: String }
 #[derive(Clone, Debug)]
-struct Model { ns: Option<String>, fields: Vec<FDef>, eshort: String }
+struct Model { ns: Option<String>, fields: Vec<FDef>, eshort: String, uniq0: bool } // uniq0: field 0 is an Integer with a different value on every row
 impl Model {
     fn ename(&self) -> String { match &self.ns { Some(n) => format!("{}.P", n), None => "P".into() } }
     fn text(&self, phase2: bool) -> String {
@@ -346,7 +346,9 @@ fn gen_model(rng: &mut Rng) -> Model {
         let default = if kind == 2 { let mut d = gen_val(rng, ty, false); if let Val::Str(s) = &d { if s.contains('"') { d = Val::Str("dd".into()); } } Some(d) } else { None };
         fields.push(FDef { name: format!("f{}", i), ty, nullable: kind == 1, default, phase2, short: String::new() });
     }
-    Model { ns: if rng.chance(1, 3) { Some("ns".into()) } else { None }, fields, eshort: String::new() }
+    let uniq0 = rng.chance(1, 2);
+    if uniq0 { fields[0] = FDef { name: "f0".into(), ty: FT::Int, nullable: false, default: None, phase2: false, short: String::new() }; }
+    Model { ns: if rng.chance(1, 3) { Some("ns".into()) } else { None }, fields, eshort: String::new(), uniq0 }
 }
 
 fn build_world(rng: &mut Rng, mut model: Model, nrows: usize, explicit: Option<Vec<(bool, Vec<Option<Val>>)>>) -> World {
@@ -360,7 +362,8 @@ fn build_world(rng: &mut Rng, mut model: Model, nrows: usize, explicit: Option<V
         Some(p) => p,
         None => (0..nrows).map(|i| {
             let p2 = has_phase2 && i * 2 >= nrows;
-            let vals = model.fields.iter().map(|f| {
+            let vals = model.fields.iter().enumerate().map(|(fi, f)| {
+                if fi == 0 && model.uniq0 { return Some(Val::Int(((i * 7 + 3) % 11) as i64 - 4)); }
                 if f.phase2 && !p2 { return None; }
                 let optional = f.nullable || f.default.is_some();
                 if optional && rng.chance(1, 4) { None }
@@ -486,6 +489,10 @@ fn gen_query(rng: &mut Rng, w: &World, for_pages: bool) -> (QSpec, Vec<(String, 
         q.order.push(OKey { r, desc: rng.chance(1, 2) });
     }
     if for_pages {
+        if m.uniq0 && rng.chance(2, 3) && !q.order.iter().any(|k| q.ref_field(&k.r) == 0) {
+            if !q.sel.iter().any(|s| s.field == 0) { q.sel.push(Sel { field: 0, alias: None }); }
+            q.order.push(OKey { r: FRef::Name(0), desc: rng.chance(1, 2) });
+        }
         if q.order.is_empty() {
             let cands: Vec<usize> = (0..q.sel.len()).filter(|k| m.fields[q.sel[*k].field].ty != FT::Bool).collect();
             if cands.is_empty() {
@@ -565,7 +572,7 @@ fn qspec(sel: Vec<Sel>) -> QSpec { QSpec { alias: None, sel, filters: vec![], or
 fn directed_world(rng: &mut Rng) -> World {
     // fields: 0 name:String, 1 k:Integer nullable, 2 t:String nullable | added later: 3 b:Boolean default true,
     //         4 s:String default "dd", 5 i:Integer default 1, 6 q:String default "it's"
-    let model = Model { ns: None, eshort: String::new(), fields: vec![
+    let model = Model { ns: None, eshort: String::new(), uniq0: false, fields: vec![
         fdef("name", FT::Str, false, None, false), fdef("k", FT::Int, true, None, false), fdef("t", FT::Str, true, None, false),
         fdef("b", FT::Bool, false, Some(Val::Bool(true)), true), fdef("s", FT::Str, false, Some(Val::Str("dd".into())), true),
         fdef("i", FT::Int, false, Some(Val::Int(1)), true), fdef("q", FT::Str, false, Some(Val::Str("it's".into())), true)] };
@@ -655,7 +662,7 @@ fn main() {
     for _ in 0..worlds {
         let mut r = rng.fork();
         let model = gen_model(&mut r);
-        let nrows = 3 + r.below(6) as usize;
+        let nrows = 3 + r.below(7) as usize;
         let w = build_world(&mut r, model, nrows, None);
         for _ in 0..per_world_q { let (q, ps) = gen_query(&mut r, &w, false); push_query(&mut out, &mut st, &w, &q, &ps, "query", false); }
         for _ in 0..per_world_p { let (q, ps) = gen_query(&mut r, &w, true); if q.order.is_empty() { continue; } let n = r.range(1, 3); push_pages(&mut out, &mut st, &w, &q, &ps, n, "pages"); }
